@@ -23,6 +23,17 @@ import (
 type execCase struct {
 	Spec *synth.Spec `json:"spec"`
 	Seed int64       `json:"seed"` // seed of the value generator inside the child
+	// Checks: number of rapid cases the child runs (values per type / histories); recorded so that a replay
+	// is a function of the file alone. 0 = the quick tier's default.
+	Checks int `json:"checks,omitempty"`
+}
+
+// childChecks returns the child's case count for the running tier.
+func childChecks(quick, thorough int) int {
+	if h.LoadConfig().Tier == "thorough" {
+		return thorough
+	}
+	return quick
 }
 
 func jsonOpts(av map[string]string, onEx, onCl func(string)) *synth.Opts {
@@ -36,7 +47,7 @@ func c02Gen(t *rapid.T, r *h.Rec) execCase {
 	o := jsonOpts(av, onEx, onCl)
 	o.NoIgnoreTag = false // gomacro:"ignore" is a TypeScript/Dart notion: encoding/json (and so the union routines) still carry the field
 	o.OtherFile = 4       // unions / members / element structs that are only reachable from the analysed file, not declared in it
-	return execCase{Spec: synth.GenTypes(t, o), Seed: int64(rapid.IntRange(1, 1<<30).Draw(t, "childSeed"))}
+	return execCase{Spec: synth.GenTypes(t, o), Seed: int64(rapid.IntRange(1, 1<<30).Draw(t, "childSeed")), Checks: childChecks(25, 80)}
 }
 
 // childDocs builds the synthesised package with the gounions output and runs the harness in "docs" mode.
@@ -69,8 +80,8 @@ func childDocsTypes(c execCase, r *h.Rec, mode string, extra map[string]string, 
 		files[k] = v
 	}
 	checks := 25
-	if h.LoadConfig().Tier == "thorough" {
-		checks = 80
+	if c.Checks > 0 {
+		checks = c.Checks
 	}
 	res, err := child.Run(c.Spec, filepath.Join(scratch()), child.Options{
 		Extra: files, Mode: mode, Seed: c.Seed, Checks: checks, UnionsOut: unionsText, RandFile: randFile, Timeout: 180 * time.Second, TypeNames: typeNames,
